@@ -33,6 +33,12 @@ def run(c, chk):
     # R13.1
     c06.include_position(c, P(chk, {'R6.5': 'R13.1'}), lex)
 
+    # R13.12: "parsing continues in the including source with its own file name": a section opened after (or inside) an
+    # include takes the name of the file being read now, also when it was first opened in another file
+    from .. import parsermodel as _pm
+    chk.rule('R13.12', 'every entry into a section body hands the current file name, line and error function to the section (the hand-over rules of C06 R6.5)')
+    c06.section_handover(c, P(chk, {'R6.5': 'R13.12'}), _pm.ParserModel(c))
+
     # R13.11: an include is resolved through the search path every section borrows from the root: nothing that happens to a
     # section between two includes (replaced by a repeated title, removed) may release that list
     from . import c07 as _c07
